@@ -741,5 +741,9 @@ def run(ctx):
     gate_params(ctx)
     mux_gates(ctx)
     refresher_timelines(ctx)
+    ob7 = ctx.ob("C03.7", "the cycle counts the gates are built from cover the datasheet values on any pair of command phases: every minimum-type timing is rounded "
+                          "up and carries the (1 - 1/ratio)*period phase margin (shared with C16.1 / C16.2) - a command phase that differs between read and write mode "
+                          "can otherwise bring two row commands up to nphases-1 DRAM clocks closer than counted", 10)
+    share(ctx, ob7, "C16", ("C16.1", "C16.2"))
     ctx.assume("C16 (cycle counts cover the datasheet nanoseconds incl. phase margin) composes with these gates; tCCD cycles >= burst "
                "duration in controller cycles for the rates each memory type is used with")
